@@ -1,8 +1,8 @@
 ---------------------------- MODULE MC_Identity ----------------------------
 EXTENDS Identity
-E(k, v) == [k |-> k, v |-> v, sp |-> 0, sub |-> <<>>]
+E(k, v) == [k |-> k, v |-> v, sp |-> 0, sub |-> <<>>, al |-> 0]
 S(k, v) == [k |-> k, v |-> v, sp |-> 0]
-EN(k, sub) == [k |-> k, v |-> 0, sp |-> 0, sub |-> sub]
+EN(k, sub) == [k |-> k, v |-> 0, sp |-> 0, sub |-> sub, al |-> 0]
 Nd(p, ps) == [proc |-> p, ps |-> ps, flow |-> FALSE, quoted |-> FALSE, alias |-> 0, sweep |-> NoSweep]
 Sw(el, vals, mode, bc, expr) ==
     [proc |-> el, ps |-> <<>>, flow |-> FALSE, quoted |-> FALSE, alias |-> 0,
@@ -14,11 +14,15 @@ Seed2 == << Sw("FloatValueDataSource", <<1, 2>>, "combinatorial", FALSE, <<"+", 
             Nd("VNestedOperation", <<EN("opts", <<S("beta", 2), S("alpha", 1)>>), E("gain", 5)>>) >>
 Seed3 == << Nd("FloatValueDataSource", <<E("value", 1)>>),
             Nd("FloatMultiplyOperation", <<E("factor", 3)>>), Nd("FloatMultiplyOperation", <<E("factor", 3)>>) >>
-Seed4 == << Sw("FloatValueDataSource", <<2, 3, 4>>, "by_position", TRUE, <<"-", <<"t">>, <<"c", 1>>>>) >>
+Seed4 == << Sw("FloatValueDataSource", <<2, 3, 4>>, "by_position", TRUE, <<"-", <<"+", <<"t">>, <<"c", 3>>>>, <<"c", 1>>>>) >>
 Seed5 == << [Sw("FloatValueDataSource", <<1, 2>>, "combinatorial", FALSE, <<"*", <<"t">>, <<"c", 2>>>>) EXCEPT !.sweep.ctx2 = TRUE] >>
 Seed6 == << [Sw("FloatValueDataSource", <<2, 3>>, "combinatorial", FALSE, <<"+", <<"t">>, <<"c", 1>>>>) EXCEPT !.sweep.vname = "expr"] >>
 \* two equal sweep nodes around a reduction: candidates for a YAML anchor/alias pair
 SwM == Sw("FloatMultiplyOperation", <<2, 3>>, "combinatorial", FALSE, <<"t">>)
 Seed7 == << Nd("FloatValueDataSource", <<E("value", 1)>>), SwM, Nd("FloatCollectionSumOperation", <<>>), SwM >>
-AllSeeds == {Seed1, Seed2, Seed3, Seed4, Seed5, Seed6, Seed7}
+\* two equal nested mappings in one node's parameters: candidates for a value-level anchor/alias pair
+Seed8 == << Nd("FloatValueDataSource", <<E("value", 1)>>),
+            Nd("VNestedOperation", <<E("gain", 2), EN("opts", <<S("alpha", 1), S("beta", 2)>>), EN("opts2", <<S("beta", 2), S("alpha", 1)>>)>>) >>
+Seed9 == << Sw("FloatValueDataSource", <<1, 2, 3, 4, 5, 6, 7, 8, 9>>, "combinatorial", FALSE, <<"t">>) >>     \* a long explicit sequence
+AllSeeds == {Seed1, Seed2, Seed3, Seed4, Seed5, Seed6, Seed7, Seed8, Seed9}
 =============================================================================
